@@ -7,6 +7,7 @@
 
 #include <atomic>
 #include <condition_variable>
+#include <exception>
 #include <list>
 #include <mutex>
 #include <thread>
@@ -47,18 +48,30 @@ struct Job
   unsigned long long chunk;
   void (*body)(void *, unsigned long long);
   void *ctx;
+  Context *group;
+  std::mutex emtx;
+  std::exception_ptr error;
 };
 
 void work(Job *j)
 {
   tl_depth++;
   for (;;) {
+    if (j->group->cancelled)
+      break;  // tasks of a cancelled group are not executed
     unsigned long long s = j->next.fetch_add(j->chunk);
     if (s >= j->count)
       break;
     unsigned long long e = s + j->chunk < j->count ? s + j->chunk : j->count;
-    for (unsigned long long i = s; i < e; i++)
-      j->body(j->ctx, i);
+    try {
+      for (unsigned long long i = s; i < e && !j->group->cancelled; i++)
+        j->body(j->ctx, i);
+    } catch (...) {
+      std::lock_guard<std::mutex> lock(j->emtx);
+      if (!j->error)
+        j->error = std::current_exception();
+      j->group->cancelled = true;
+    }
   }
   tl_depth--;
 }
@@ -84,12 +97,14 @@ void control_pop(void *h)
   delete it;
 }
 
-void run_parallel(unsigned long long count, void (*body)(void *, unsigned long long), void *ctx)
+void run_parallel(unsigned long long count, void (*body)(void *, unsigned long long), void *ctx, Context *group)
 {
+  Context implicit;  // every call without an explicit context gets a fresh one
   Job job;
   job.count = count;
   job.body = body;
   job.ctx = ctx;
+  job.group = group ? group : &implicit;
   static const unsigned long long chunks[] = {1, 1, 2, 3};
   job.chunk = chunks[sim_choice(4)];
   int helpers = 0;
@@ -120,6 +135,8 @@ void run_parallel(unsigned long long count, void (*body)(void *, unsigned long l
     if (outer)
       g_active--;
   }
+  if (job.error)
+    std::rethrow_exception(job.error);
 }
 
 void enqueue(std::function<void()> f)
